@@ -23,6 +23,9 @@ def generate(seed, tier):
             shifts += [4294967295, 4294967290, 2147483648]
         for a, b, v in itertools.product(range(U), range(U), shifts):
             ops.append("r.shift %d %d %d" % (a, b, v))
+        # shift results as operands of the predicates (unsigned: wrapped, ill-formed first operand)
+        for a, b, v, c, d in itertools.product(range(0, U, 2), range(1, U, 2), (1, 4), range(0, U, 3), range(0, U, 2)):
+            ops.append("r.shpred %d %d %d %d %d" % (a, b, v, c, d))
         for a in range(U):
             ops.append("r.ctor %d" % a)
         for a, b in itertools.product(range(U), repeat=2):
@@ -112,6 +115,12 @@ def generate(seed, tier):
             a, b = rng.randint(lo, 90), rng.randint(lo, 90)
             ops.append(rng.choice(["mr.restrict 0 %d %d", "mr.filter 0 %d %d", "mr.add 0 %d %d"]) % (a, b))
         cases.append(["case bigrnd%d %s" % (i, ty)] + ops)
+    # 2d. a shift result as the argument of addRange, last op of its case (unsigned: a wrapped, ill-formed
+    #     range reaches the collection: known finding C20-illformed-unsigned-argument)
+    for ty in TYPES:
+        for (a, b, v) in [(2, 5, 3), (1, 4, 1), (3, 6, 2), (0, 2, 1), (4, 6, 9), (5, 2, 4)]:
+            for pre in ([], ["mr.add 0 1 3"], ["mr.add 0 1 3", "mr.add 0 6 9"]):
+                cases.append(["case addsh_%d_%d_%d_%d %s" % (a, b, v, len(pre), ty)] + pre + ["mr.addsh 0 %d %d %d" % (a, b, v)])
     # 3. random histories up to length 12 over 0..24 with 4 registers, copies/assignments and clears
     nrand = 40000 if tier == "thorough" else 3000
     for i in range(nrand):
